@@ -125,17 +125,25 @@ Qed.
 
 (* the key carries the function id and the thread; a method's key starts with its instance *)
 Lemma key_of_components v c n th fn :
-  key_of v c = Some (n, th, fn) -> th = cthread c /\ fn = cfn c.
+  key_of v c = Some (n, th, fn) -> th = cthread c /\ fn = fid_of c.
 Proof.
   unfold key_of. destruct (keygetter v _ _ _); [|discriminate]. intros H; inversion H; auto.
 Qed.
 
+(* what makes two calls calls of different callables / contexts: another def statement, another
+   execution of the same def statement (a different function object with the same module and
+   qualname), another thread, or (methods) another instance *)
+Definition differ (c1 c2 : callspec) : Prop :=
+  cfn c1 <> cfn c2 \/ cgen c1 <> cgen c2 \/ cthread c1 <> cthread c2 \/
+  (cfn c1 = 4 /\ cfn c2 = 4 /\ cinst c1 <> cinst c2).
+
 Lemma keys_differ_by_function_or_thread v c1 c2 k1 k2 :
   key_of v c1 = Some k1 -> key_of v c2 = Some k2 ->
-  (cfn c1 <> cfn c2 \/ cthread c1 <> cthread c2) -> k1 <> k2.
+  (cfn c1 <> cfn c2 \/ cgen c1 <> cgen c2 \/ cthread c1 <> cthread c2) -> k1 <> k2.
 Proof.
   destruct k1 as [[n1 t1] f1], k2 as [[n2 t2] f2]. intros H1 H2 Hd E.
-  apply key_of_components in H1, H2. inversion E; subst. destruct H1, H2. destruct Hd; congruence.
+  apply key_of_components in H1, H2. inversion E; subst. destruct H1 as [T1 F1], H2 as [T2 F2].
+  unfold fid_of in *. rewrite F1 in F2. inversion F2. destruct Hd as [|[|]]; congruence.
 Qed.
 
 Lemma keys_differ_by_instance v c1 c2 k1 k2 :
@@ -143,10 +151,10 @@ Lemma keys_differ_by_instance v c1 c2 k1 k2 :
   key_of v c1 = Some k1 -> key_of v c2 = Some k2 -> k1 <> k2.
 Proof.
   intros F1 F2 Hi. unfold key_of, full_pos. rewrite F1, F2. cbn [Z.eqb Pos.eqb].
-  assert (E : forall i pos kw, keygetter v (sig_of 4) (AInst i :: pos) kw
+  assert (E : forall g i pos kw, keygetter v (sig_of 4) (AInst g i :: pos) kw
               = match fill (skipn (length pos) [N_A; N_B]) kw [(N_B, AInt 0)] with
                 | None => None
-                | Some fl => Some (KPos (AInst i) :: map KPos (pos ++ fl) ++ map kw_elt (extras [N_SELF; N_A; N_B] kw))
+                | Some fl => Some (KPos (AInst g i) :: map KPos (pos ++ fl) ++ map kw_elt (extras [N_SELF; N_A; N_B] kw))
                 end).
   { intros. destruct v; reflexivity. }
   rewrite !E.
@@ -428,7 +436,7 @@ Qed.
 Lemma shared_as_written_refuted : ~ shared_statement AsWritten.
 Proof.
   intros H.
-  pose (c := mkCall 0 0 0 [AInt 1] []).
+  pose (c := mkCall 0 0 0 0 [AInt 1] []).
   pose (st := fst (run_micro AsWritten init [ACall c; ADirty c; ACall c; ARun 0])).
   destruct (key_of AsWritten c) as [k|] eqn:Ek; [|vm_compute in Ek; discriminate].
   specialize (H [AFinish 0 (Ok VNone); ACall c] st k 1%nat).
@@ -639,11 +647,11 @@ Proof.
     + apply IH, d_flush_reach, H.
     + apply IH, d_go_reach, H.
   - destruct o.
-    + destruct (d_group v d (OCall thread fn inst pos kw :: ops1)) as [d' ops2] eqn:Eg.
-      apply IH, d_go_reach. replace d' with (fst (d_group v d (OCall thread fn inst pos kw :: ops1))) by (rewrite Eg; reflexivity).
+    + destruct (d_group v d (OCall thread fn gen inst pos kw :: ops1)) as [d' ops2] eqn:Eg.
+      apply IH, d_go_reach. replace d' with (fst (d_group v d (OCall thread fn gen inst pos kw :: ops1))) by (rewrite Eg; reflexivity).
       apply d_group_reach, H.
-    + destruct (d_group v d (ODirty thread fn inst pos kw :: ops1)) as [d' ops2] eqn:Eg.
-      apply IH, d_go_reach. replace d' with (fst (d_group v d (ODirty thread fn inst pos kw :: ops1))) by (rewrite Eg; reflexivity).
+    + destruct (d_group v d (ODirty thread fn gen inst pos kw :: ops1)) as [d' ops2] eqn:Eg.
+      apply IH, d_go_reach. replace d' with (fst (d_group v d (ODirty thread fn gen inst pos kw :: ops1))) by (rewrite Eg; reflexivity).
       apply d_group_reach, H.
     + destruct (d_group v d (OGo :: ops1)) as [d' ops2] eqn:Eg.
       apply IH, d_go_reach. replace d' with (fst (d_group v d (OGo :: ops1))) by (rewrite Eg; reflexivity).
@@ -673,14 +681,49 @@ Qed.
 
 Lemma keys_differ v c1 c2 k1 k2 :
   key_of v c1 = Some k1 -> key_of v c2 = Some k2 ->
-  (cfn c1 <> cfn c2 \/ cthread c1 <> cthread c2 \/ (cfn c1 = 4 /\ cfn c2 = 4 /\ cinst c1 <> cinst c2)) ->
-  k1 <> k2.
+  differ c1 c2 -> k1 <> k2.
 Proof.
-  intros H1 H2 [H|[H|(F1 & F2 & H)]].
+  intros H1 H2 [H|[H|[H|(F1 & F2 & H)]]].
   - exact (keys_differ_by_function_or_thread v c1 c2 k1 k2 H1 H2 (or_introl H)).
-  - exact (keys_differ_by_function_or_thread v c1 c2 k1 k2 H1 H2 (or_intror H)).
+  - exact (keys_differ_by_function_or_thread v c1 c2 k1 k2 H1 H2 (or_intror (or_introl H))).
+  - exact (keys_differ_by_function_or_thread v c1 c2 k1 k2 H1 H2 (or_intror (or_intror H))).
   - exact (keys_differ_by_instance v c1 c2 k1 k2 F1 F2 H H1 H2).
 Qed.
+
+(* T3 at the level of tasks: in any history, calls of different function objects (another def, or
+   another execution of the same def: equal module and qualname), on different threads, or of a
+   method on different instances never receive the same task *)
+Lemma distinct_never_share st c1 s1 t1 b1 acts c2 t2 b2 :
+  reach Repaired st ->
+  micro Repaired st (ACall c1) = (s1, MTask t1 b1) ->
+  snd (micro Repaired (fst (run_micro Repaired s1 acts)) (ACall c2)) = MTask t2 b2 ->
+  differ c1 c2 -> t1 <> t2.
+Proof.
+  intros Hr H1 H2 Hd E. subst t2.
+  pose proof (keys_disjoint _ _ _ _ _ _ _ _ Hr H1 H2) as Hk.
+  destruct (key_of Repaired c1) as [k1|] eqn:E1.
+  - symmetry in Hk. exact (keys_differ Repaired c1 c2 k1 k1 E1 Hk Hd eq_refl).
+  - unfold micro in H1. rewrite E1 in H1. discriminate.
+Qed.
+
+(* ... and dirty() of one of them never unregisters the in-flight task of the other *)
+Lemma dirty_of_other_keeps st c0 k t c :
+  key_of Repaired c0 = Some k -> find k (reg st) = Some t -> differ c0 c ->
+  find k (reg (fst (micro Repaired st (ADirty c)))) = Some t.
+Proof.
+  intros Hk Hf Hd. apply owner_preserved; [exact Hf|]. cbn. intros E.
+  exact (keys_differ Repaired c0 c k k Hk E Hd eq_refl).
+Qed.
+
+(* two executions of the same def statement (f0 of generation 0 and of generation 1), equal
+   arguments, same thread: separate tasks; dirty() of the second leaves the first shared *)
+Lemma example_generations :
+  let c1 := mkCall 0 0 0 0 [AInt 1] [] in
+  let c2 := mkCall 0 0 1 0 [AInt 1] [] in
+  differ c1 c2 /\
+  snd (run_micro Repaired init [ACall c1; ACall c2; ADirty c2; ACall c1; ACall c2])
+  = [MTask 0 true; MTask 1 true; MUnit; MTask 0 false; MTask 2 true].
+Proof. split; [right; left; discriminate|vm_compute; reflexivity]. Qed.
 
 Lemma body_once_one_outcome v st t x : reach v st -> nth_error (pool st) t = Some x ->
   ((tstarts x <= 1)%nat /\ (tstatus x <> Created -> tstarts x = 1%nat) /\ (tout x <> None <-> tstatus x = Done)) /\
@@ -692,8 +735,8 @@ Proof.
 Qed.
 
 Lemma example_share :
-  let c1 := mkCall 0 0 0 [AInt 1] [] in
-  let c2 := mkCall 0 0 0 [] [(N_B, AInt 0); (N_A, AInt 1)] in
+  let c1 := mkCall 0 0 0 0 [AInt 1] [] in
+  let c2 := mkCall 0 0 0 0 [] [(N_B, AInt 0); (N_A, AInt 1)] in
   snd (run_micro Repaired init [ACall c1; ARun 0; AGate 0; ACall c2; ARun 0; AFinish 0 (Ok (VInt 7)); ACall c1])
   = [MTask 0 true; MUnit; MUnit; MTask 0 false; MUnit; MUnit; MTask 1 true].
 Proof. vm_compute. reflexivity. Qed.
